@@ -564,6 +564,12 @@ func (w *Worker) apply(st *Stim) {
 		w.Race(st.Plan)
 	case "authfile":
 		w.authFile(st)
+	case "hshold":
+		w.Cl.HoldReadonly = st.Count == 1
+	case "hsrelease":
+		if w.Cl.ReleaseAcks(st.N) == 0 {
+			w.Unreal++
+		}
 	case "ndown":
 		w.Log.Add(Event{Ev: "ndown", N: st.N})
 		if err := w.Cl.SetDown(st.N, true); err != nil {
@@ -639,6 +645,7 @@ func (w *Worker) authFile(st *Stim) {
 	} else {
 		_ = os.WriteFile(path, []byte(sb.String()), 0644)
 	}
+	w.Log.Add(Event{Ev: "authuniverse", Slots: st.Reqs[0].Slots})
 	w.Log.Add(Event{Ev: "authfile", Kind: st.Kind, Cls: st.Cls, Num: st.Count, Slots: st.Reqs[0].Args})
 	universe := st.Reqs[0].Slots
 	// (only to know when to stop waiting; the verdict is the specification's)
